@@ -118,9 +118,11 @@ class RecordingFrame:
     """DataFrame-like: ``len()`` and ``frame[start:end]`` -> real sub-frame;
     any other key is a whole-input request (logged) and served."""
 
-    def __init__(self, df, log: RequestLog):
+    def __init__(self, df, log: RequestLog, fail_at=None):
         self._df = df
         self._log = log
+        self._fail_at = fail_at  # the k-th row request fails once with an I/O error (a transient fault of the source)
+        self._row_requests = 0
 
     def __len__(self):
         return len(self._df)
@@ -128,6 +130,11 @@ class RecordingFrame:
     def __getitem__(self, key):
         b = _slice_bounds(key, len(self._df))
         if b is not None:
+            self._row_requests += 1
+            if self._fail_at is not None and self._row_requests - 1 == self._fail_at:
+                self._fail_at = None
+                self._log.add(op="rows_failed", start=b[0], stop=b[1], step=b[2], n=len(self._df))
+                raise OSError(5, "Input/output error (injected)")
             self._log.add(op="rows", start=b[0], stop=b[1], step=b[2], n=len(self._df))
             return self._df[key]
         self._log.add(op="whole", key=repr(key), n=len(self._df))
